@@ -126,6 +126,15 @@ func runOnce(t *testing.T, p *Property, tier string, seed uint64, scen, sched []
 		out.probes = sc.Probes()
 		out.Nontrivial = sc.Nontrivial(res)
 	}()
+	if sg, ok := sc.(Signer); ok && out.Tool == "" {
+		// scenarios without thread interleavings define their own notion of "distinct case"
+		hsh := uint64(1469598103934665603)
+		for _, b := range []byte(sg.Signature(res)) {
+			hsh ^= uint64(b)
+			hsh *= 1099511628211
+		}
+		out.Sig = fmt.Sprintf("%016x", hsh)
+	}
 	if res.Reason == "maxsteps" && len(out.Violations) == 0 {
 		// a run that hit the step cap is inconclusive, never a verdict
 		out.Reason = "maxsteps"
